@@ -60,6 +60,7 @@ UnS(s) ==
     [] s.t = "let"  -> <<"<%", " ", "let", " ", s.n, " ", "=", " ">> \o UnE(s.e) \o <<" ", "%>">>
     [] s.t = "letnl" -> <<"<%", "NL", "let", " ", s.n, " ", "=", "NL", " ", " ">> \o UnE(s.e) \o <<"NL", "%>">>
     [] s.t = "rawtag" -> s.toks
+    [] s.t = "oktag" -> s.toks
     [] s.t = "ret"  -> <<"<%", " ", "return", " ">> \o UnE(s.e) \o <<" ", "%>">>
 
 Unparse(prog) == UnB(prog)
@@ -99,6 +100,7 @@ Let(n, e)   == [t |-> "let", n |-> n, e |-> e]
 Ret(e)      == [t |-> "ret", e |-> e]
 LetNL(n, e) == [t |-> "letnl", n |-> n, e |-> e]
 RawTag(toks) == [t |-> "rawtag", toks |-> toks]
+OkTag(toks) == [t |-> "oktag", toks |-> toks]      \* a well-formed silent tag given as tokens, binding only names nothing else mentions
 Cmt(s)      == [t |-> "cmt", s |-> s]
 
 \* the Go helpers the harness registers under these names (meanings: PlushSem.CallGo)
